@@ -170,6 +170,7 @@ def run(ctx, rep):
                "violated" if bad else ("undecided" if und else "ok"), "; ".join((bad or und)[:4]), (direct or pc).span, fn=(direct or pc).path,
                key="C05.compare-values|%s" % opn)
     rep.floor("C05.compare-values evaluations", n_cmp, 150)
+    equality_route(F, rep)
 
     # ---- (c) -------------------------------------------------------------------------------------------
     ofns = operator_fns(F)
@@ -261,3 +262,86 @@ def run(ctx, rep):
                    fn=f.path, key="C05.widening|%s|%s->%s|#%d" % (mir.short(f.path), a, b, idx))
             idx += 1
     rep.floor("C05.casts in operator impls", ncast, 40)
+
+
+
+def _bool_source(fn, local, limit=24):
+    """Walk the single-definition chain of a bool backwards: (call reached or None, number of `!` passed, what stopped the walk)."""
+    nots = 0
+    cur = local
+    for _ in range(limit):
+        ds = rules.defs_of(fn, cur)
+        if len(ds) != 1:
+            return None, nots, "%d definitions of _%d" % (len(ds), cur)
+        d = ds[0]
+        if d[0] == "call":
+            c = d[4]
+            if c.matches(rules.TRY_BRANCH) or c.callee().endswith(("Result::<T, E>::unwrap", "Result::<T, E>::expect")):
+                cur = op_local(c.args[0])
+                if cur is None:
+                    return None, nots, "constant operand"
+                continue
+            return c, nots, ""
+        rv = d[4]
+        if "use" in rv:
+            nxt = op_local(rv["use"])
+        elif "un" in rv and rv["un"] == "Not":
+            nots += 1
+            nxt = op_local(rv["op"])
+        elif "agg" in rv and len(rv["ops"]) == 1:
+            nxt = op_local(rv["ops"][0])
+        else:
+            return None, nots, "computed by %s" % (sorted(k for k in rv if k not in ("lty", "oty"))[:2])
+        if nxt is None:
+            return None, nots, "constant"
+        cur = nxt
+    return None, nots, "chain too long"
+
+
+def equality_route(F, rep, rule="C05.equality-route"):
+    """`==` and `!=` compare numbers of different kinds by value: that is Primitive::equals (whose kind table C05.promotion evaluates); the
+    derived PartialEq of Primitive is structural (Int(5) != Float(5.0), Int(5) != Byte(5)).  (1) The `equ` handler pushes what equals returned
+    and `neq` its negation; (2) nothing in the interpreter that works on program values calls the derived `<Primitive as PartialEq>::eq/ne`
+    (directly, or through a std routine instantiated at Primitive that is built on it)."""
+    EQUALS = PRIM + "::equals"
+    for name, want in (("equ", 0), ("neq", 1)):
+        h = F.fn("bytecode::instruction::implementations::" + name)
+        if h is None:
+            raise AnchorMissing("implementations::" + name)
+        pushes = h.calls_to("bytecode::context::Ctx::push")
+        rep.floor("%s results pushed by %s" % (rule, name), len(pushes), 1)
+        for i, c in enumerate(pushes):
+            l = op_local(c.args[1]) if len(c.args) > 1 else None
+            src, nots, why = _bool_source(h, l) if l is not None else (None, 0, "constant")
+            ok = src is not None and src.callee() == EQUALS and nots % 2 == want
+            detail = "" if ok else ("the pushed bool comes from %s with %d negation(s)%s: `5 %s 5.0` does not compare by value" % (
+                src.callee() if src is not None else "no call", nots, (" (%s)" % why) if why else "", "==" if name == "equ" else "!="))
+            rep.ob(rule, "`%s` pushes %s Primitive::equals returned" % (name, "what" if want == 0 else "the negation of what"), "ok" if ok else "violated", detail,
+                   c.span, fn=h.path, key="%s|%s#%d" % (rule, name, i))
+    # (2) who may call the structural equality
+    ALLOWED = {
+        "<bytecode::stack::PrimitiveFlagsPair as core::cmp::PartialEq>::eq": "derived on the (value, flags) pair; checked below to have no caller among the operations",
+    }
+    STD_EQ = re.compile(r"::(contains|starts_with|ends_with|dedup|eq|ne|strip_prefix|strip_suffix|position)\b")
+    n = 0
+    bad = []
+    derived = re.compile(r"^<bytecode::(variables::primitive::(Primitive|GcVector|HeapPrimitive)|stack::PrimitiveFlagsPair) as core::cmp::PartialEq>::(eq|ne)$")
+    for f in F.crates["bytecode"].fns:
+        for c in f.calls():
+            nm = c.callee()
+            n += 1
+            hit = derived.match(nm) or (STD_EQ.search(mir.strip_generics(nm)) and not nm.startswith("<bytecode::") and re.search(
+                r"<[^>]*bytecode::(variables::primitive::(Primitive|GcVector)|stack::PrimitiveFlagsPair)\b", nm) and "PartialEq" in nm)
+            if not hit:
+                continue
+            if f.path in ALLOWED or f.path.startswith("<bytecode::variables::primitive::") and " as core::cmp::PartialEq>" in f.path:
+                continue
+            bad.append((f.path, nm, c.span))
+    for fp, nm, sp in bad:
+        rep.ob(rule, "%s compares program values with the structural equality %s" % (mir.short(fp), mir.short(nm)), "violated",
+               "the derived PartialEq tells Int(5) from Float(5.0) and Byte(5): program values are compared with Primitive::equals", sp, fn=fp,
+               key="%s|structural|%s" % (rule, mir.short(fp)))
+    if not bad:
+        rep.ob(rule, "no operation of the interpreter compares program values with the derived (structural) PartialEq", "ok", "%d call sites inspected" % n, None,
+               key=rule + "|structural")
+    rep.floor(rule + " call sites inspected", n, 2000)
